@@ -124,6 +124,13 @@ Definition default_parent_decision (parent : octx) : option N :=
   then Some (if sampled_flag (o_flags parent) then D_SAMPLE else D_DROP)
   else None.   (* no parent: the root sampler decides *)
 
+(** The ratio sampler decides by the trace id alone: wherever TraceIDRatioBased answers (used
+    directly or as any ParentBased delegate), its decision [d] for a span equals [ref], its decision
+    for the same trace id asked without any parent - whatever the parent's flags or remoteness - and
+    is Drop or RecordAndSample. *)
+Definition parent_independent (d : N) (ref : bool) : bool :=
+  Bool.eqb (d =? D_SAMPLE) ref && ((d =? D_SAMPLE) || (d =? D_DROP)).
+
 (** ** Uniqueness relative to the generator *)
 Fixpoint distinct (l : list bytes) : bool :=
   match l with
